@@ -30,8 +30,8 @@ pub enum K {
     /// `load_file` from the simulated disk. `n` bit 0: load what the disk holds under the name (otherwise the document
     /// carried by the operation is put there first); bit 1: the read fails (injected fault)
     MLoadFile,
-    /// `write()` to the simulated disk. `n % 100` = k > 0: the k-th file write of the call fails (injected fault),
-    /// leaving `n / 100` percent of that file on the disk (0: nothing)
+    /// `write()` to the simulated disk. `n % 100` = k > 0: the write of the k-th file (names in sorted order) fails
+    /// (injected fault), leaving `n / 100` percent of that file on the disk (0: nothing)
     MWrite,
     /// drop every handle to the model that the harness holds (files and elements stay)
     MDrop,
@@ -577,7 +577,7 @@ fn exec_inner(w: &World, label: u32, op: &Op) -> Option<Ret> {
             if op.n & 1 == 0 {
                 crate::simfs::put(path, &op.buffer());
             }
-            crate::simfs::arm(crate::simfs::Armed { read_err: op.n & 2 != 0, fail_write: 0, torn_pct: 0 });
+            crate::simfs::arm(crate::simfs::Armed { read_err: op.n & 2 != 0, fail_name: None, torn_pct: 0 });
             struct Disarm;
             impl Drop for Disarm {
                 fn drop(&mut self) {
@@ -607,7 +607,18 @@ fn exec_inner(w: &World, label: u32, op: &Op) -> Option<Ret> {
         }
         K::MWrite => {
             let m = w.model(op.a)?;
-            crate::simfs::arm(crate::simfs::Armed { read_err: false, fail_write: op.n % 100, torn_pct: op.n / 100 });
+            // which file fails: the k-th of the model's file names in sorted order (the order in which write() walks its
+            // HashMap of files is random per process and must not decide anything)
+            let k = op.n % 100;
+            let fail_name = if k > 0 {
+                let mut names: Vec<std::path::PathBuf> = m.files().map(|f| f.filename()).collect();
+                names.sort();
+                names.dedup();
+                if names.is_empty() { None } else { Some(names[(k - 1) % names.len()].clone()) }
+            } else {
+                None
+            };
+            crate::simfs::arm(crate::simfs::Armed { read_err: false, fail_name, torn_pct: op.n / 100 });
             struct Disarm;
             impl Drop for Disarm {
                 fn drop(&mut self) {
@@ -617,6 +628,9 @@ fn exec_inner(w: &World, label: u32, op: &Op) -> Option<Ret> {
             let guard = Disarm;
             let res = m.write();
             std::mem::forget(guard);
+            if res.is_err() {
+                crate::simfs::undo_other_writes_of_failed_call();
+            }
             let fired = crate::simfs::disarm();
             let mut r = match res {
                 Ok(()) => Ret::shape("Ok"),
